@@ -44,11 +44,9 @@ def run(ctx):
     rep.saw(arp, i4, i6)
     for f, getname, allowed, banned, what in [(arp, 'get_operation', {1}, {2}, 'ARP operation'), (i4, 'get_icmp_type', {8}, {0}, 'ICMP type'),
                                               (i6, 'get_icmpv6_type', {128, 135}, {129, 136}, 'ICMPv6 type')]:
-        g = []
-        for v in allowed:
-            g += int_edges(f, getname, v)
         sp = some_points(f)
-        off = f.must_pass(g, sp) if g else sp
+        okg, _dg = value_required_at(f, sp, rq(getname), allowed)
+        off = not okg
         armvals = set()
         for bi in range(f.n):
             se = f.switch_edges(bi)
@@ -73,8 +71,15 @@ def run(ctx):
     def of_request(edges):
         # the tested object is the parsed request StunPacket::new(data)
         return edges
-    rep.check(r2, bool(gc) and bool(sp) and not st.must_pass(gc, sp), 'stun:class==0', 'reply only behind class == STUN_CLASS_REQUEST: %s' % bool(gc), st.loc(sp[0]) if sp else '')
-    rep.check(r2, bool(gm) and bool(sp) and not st.must_pass(gm, sp), 'stun:method==1', 'reply only behind method == STUN_METHOD_BINDING: %s' % bool(gm), st.loc(sp[0]) if sp else '')
+    def req_field(name):
+        def p(k):
+            k = peel(k)
+            return isinstance(k, tuple) and k[0] == 'field' and k[2] == name and calls_in(k, r'StunPacket::new$') != []
+        return p
+    okc, dc = value_required_at(st, sp, req_field('class'), {0})
+    okm, dm = value_required_at(st, sp, req_field('method'), {1})
+    rep.check(r2, okc, 'stun:class==0', 'reply only on path states with class == STUN_CLASS_REQUEST of the parsed request: %s' % dc, st.loc(sp[0]) if sp else '')
+    rep.check(r2, okm, 'stun:method==1', 'reply only on path states with method == STUN_METHOD_BINDING of the parsed request: %s' % dm, st.loc(sp[0]) if sp else '')
     cw = [v for _, _, v in field_writes(st, 'class')]
     # the class that is tested is the protocol's class: indications (class 1) and responses (2, 3) decode as such
     from rules import c15 as _c15
